@@ -27,6 +27,7 @@ func vxDone(c CallCmd) bool {
 //       cut(0 whole frame, k>0: frame truncated after k bytes), nMeta(0/1)
 func VX_C02_Replies(args []int) {
 	seqMode, codecMode, statusMode, nBody, resultKind, cut, nMeta := args[0], args[1], args[2], args[3], args[4], args[5], args[6]
+	snaps := vxSnapSentinels()
 	p := vxNewPeer()
 	conn := newVxConn("cli:1", "srv:2")
 	sess, st := p.ServeConn(conn)
@@ -157,5 +158,6 @@ func VX_C02_Replies(args []int) {
 		vxAssert(c2.Status().Code() == CodeConnClosed || cut > 0, "connection loss => 102 for call 2")
 	}
 	vxAssert(!sess.Health(), "session unhealthy after connection loss")
+	vxCheckSentinels(snaps)
 	vxCover("c02.end")
 }
